@@ -24,7 +24,9 @@ Inductive skind :=
 | KField (f : string) (r : string) (write : bool)           (* fidRef.opened *)
 | KWait (what : string)                                     (* channel receive / WaitGroup.Wait *)
 | KDispatch                                                 (* handler.handle(cs) *)
-| KNew (file node : snode) (parent : option snode).         (* fidRef{file:, pathNode:, parent:}: node of the File, node assigned, node of the parent ref *)
+| KNew (file node : snode) (parent : option snode)          (* fidRef{file:, pathNode:, parent:}: node of the File, node assigned, node of the parent ref *)
+| KRef (op : string) (weak : bool).                         (* IncRef / TryIncRef on a fidRef; weak: the fidRef was found by ranging over a path node's childRefs,
+                                                               a registration that owns no reference (the fidRef may be dying: count 0, Close in progress) *)
 
 (** one step of the plan that leads to a site *)
 Inductive pact :=
